@@ -17,6 +17,9 @@ LWW_MODULES = ["DiscretModel.Lemmas.LwwEq"]
 # T8: validate_node / validate_node_deletions / validate_edge_deletions (translators/t8_ingest_kernel.py -> Gen/IngestKernel.lean)
 INGEST_PROPS = {"C02", "C12"}
 INGEST_MODULES = ["DiscretModel.Lemmas.IngestKernelEq"]
+# T10: the order close < drain < cleanup at the end of LocalPeerService::start (translators/t10_conn_close.py)
+CONN_PROPS = {"C20"}
+CONN_MODULES = ["DiscretModel.Lemmas.ConnCloseEq"]
 
 
 def repo_under_test():
@@ -32,7 +35,7 @@ def repo_under_test():
 
 def extra_modules(prop):
     return (list(ROOM_MODULES) if prop in ROOM_PROPS else []) + (list(LWW_MODULES) if prop in LWW_PROPS else []) \
-        + (list(INGEST_MODULES) if prop in INGEST_PROPS else [])
+        + (list(INGEST_MODULES) if prop in INGEST_PROPS else []) + (list(CONN_MODULES) if prop in CONN_PROPS else [])
 
 
 def pre_build(prop):
@@ -60,6 +63,16 @@ def pre_build(prop):
             common.write_if_changed("IngestKernel.lean",
                                     "/-! translator T8 FAILED on %s: %s -/\nexample : False := by decide\n" % (
                                         repo, str(e).replace("-/", "- /")))
+    if prop in CONN_PROPS:
+        import common, t10_conn_close
+        repo = repo_under_test()
+        try:
+            t10_conn_close.main(repo)
+        except Exception as e:
+            problems.append("T10 (peer_inbound_service.rs end of start -> Gen/ConnClose.lean): %s" % e)
+            common.write_if_changed("ConnClose.lean",
+                                    "/-! translator T10 FAILED on %s: %s -/\nexample : False := by decide\n" % (
+                                        repo, str(e).replace("-/", "- /")))
     if prop in LWW_PROPS:
         import common, t9_lww
         repo = repo_under_test()
@@ -75,6 +88,9 @@ def pre_build(prop):
 
 def trusted(prop):
     res = []
+    if prop in CONN_PROPS:
+        res.append("translator T10 translators/t10_conn_close.py (regex level): order of close / drain / cleanup at the end of "
+                   "LocalPeerService::start, decided by Lemmas/ConnCloseEq.lean; ties the `close` step of Model/LockConn.lean to the source")
     if prop in INGEST_PROPS:
         res.append("translator T8 translators/t8_ingest_kernel.py: validate_node, validate_node_deletions, validate_edge_deletions of "
                    "authorisation_service.rs read statement by statement; structures Model/IngestKernelTypes.lean (fields checked against the "
@@ -98,6 +114,9 @@ def technique(prop):
     if prop in INGEST_PROPS:
         parts.append("T8: validate_node / validate_node_deletions / validate_edge_deletions are re-translated from authorisation_service.rs on "
                      "every run and proved equal to the model's decisions (Lemmas/IngestKernelEq.lean)")
+    if prop in CONN_PROPS:
+        parts.append("T10: the order close-the-inbox < drain < unlock-the-drained at the end of LocalPeerService::start is re-read from "
+                     "peer_inbound_service.rs on every run and decided (Lemmas/ConnCloseEq.lean)")
     if prop in LWW_PROPS:
         parts.append("T9: the last-writer-wins chain of Node::filter_existing is re-read from node.rs on every run and proved to be the model's "
                      "filter (Lemmas/LwwEq.lean)")
